@@ -236,3 +236,84 @@ def make(pre, post, cls, L, optsd, oracle, ml=False, lmin=0, twin=False, node_of
             D.EXTRA['validated'] += 1
             return True if verdict is None else verdict
     return prop, (lambda w: concrete_check(w['h']))
+
+
+def make2(c0, c1, c2, cls, L, optsd, oracle, lmins=(0, 0), wins=((0, 0), (0, 0)), twin=False):
+    """two holes: c0 . h1 . c1 . h2 . c2 (both of class cls, length <= L).
+    wins[k] = (a, b): a characters before and b characters after hole k are scanned
+    symbolically together with it (partial splice).  oracle(h1, h2, doc, flat, diags)."""
+    from vf.offrun import flatten
+    ranges = CLASSES[cls]
+
+    def concrete_check(h1, h2):
+        doc = c0 + h1 + c1 + h2 + c2
+        res, diags, err = yal.run_native(doc, yal.mkopts(optsd))
+        flat = flatten(res)
+        if twin:
+            return 'TWIN'
+        return oracle(h1, h2, doc, flat, diags)
+
+    def ok_w(w):
+        return all(lmins[k] <= len(w[n]) <= L and all(in_class(cls, c) for c in w[n])
+                   for k, n in enumerate(('h1', 'h2')))
+    try:
+        from vf import driver as D
+        import z3
+    except ImportError:
+        return None, (lambda w: concrete_check(w['h1'], w['h2']) if ok_w(w) else None)
+    opts = yal.mkopts(optsd)
+    (a1, b1), (a2, b2) = wins
+    assert b1 + a2 <= len(c1)
+
+    def prop(h1: str, h2: str):
+        if len(h1) > L or len(h1) < lmins[0] or len(h2) > L or len(h2) < lmins[1]:
+            return D.SKIP
+        hc = [[ord(c) for c in h1], [ord(c) for c in h2]]
+        with D.NoTracing():
+            cons = [z3.Or(*[z3.And(D.z3var(o) >= a, D.z3var(o) <= b) for a, b in ranges])
+                    for o in hc[0] + hc[1]]
+            okc = D.SymbolicBool(z3.And(*cons)) if cons else True
+        if not okc:
+            return D.SKIP
+        sk = Sketch([c0[:len(c0) - a1], c0[len(c0) - a1:] + h1 + c1[:b1],
+                     c1[b1:len(c1) - a2], c1[len(c1) - a2:] + h2 + c2[:b2], c2[b2:]])
+        with yal.symbolic_stderr() as rec:
+            res = tex2txt.tex2txt(sk, opts, False, install)
+        sflat = flatten(res)
+        codes = [[ord(c) for c in sp] for _lab, sp, _cm in sflat]
+        with D.NoTracing():
+            model = D._model()
+            w1, w2 = D._peek(h1, model), D._peek(h2, model)
+            doc = c0 + w1 + c1 + w2 + c2
+            nres, ndiags, _err = yal.run_native(doc, opts)
+            nflat = flatten(nres)
+            ok = len(sflat) == len(nflat)
+            conj = []
+            o1 = len(c0)
+            o2 = len(c0) + len(w1) + len(c1)
+            if ok:
+                for (lab, sp, scm), (_l, np_, ncm), cs in zip(sflat, nflat, codes):
+                    if len(cs) != len(np_) or list.__len__(list(scm)) != len(ncm):
+                        ok = False
+                        break
+                    for k in range(len(np_)):
+                        conj.append(D.z3var(scm[k]) == ncm[k])
+                        p = ncm[k] - 1
+                        if o1 <= p < o1 + len(w1) and np_[k] == w1[p - o1]:
+                            conj.append(D.z3var(cs[k]) == D.z3var(hc[0][p - o1]))
+                        elif o2 <= p < o2 + len(w2) and np_[k] == w2[p - o2]:
+                            conj.append(D.z3var(cs[k]) == D.z3var(hc[1][p - o2]))
+                        else:
+                            conj.append(D.z3var(cs[k]) == ord(np_[k]))
+            if ok and len(rec.events) != len(ndiags):
+                ok = False
+            if ok and conj:
+                ok = D.must_hold(z3.And(*conj))
+            verdict = concrete_check(w1, w2)
+            if not ok:
+                if verdict is None:
+                    raise D.UnexploredPath('LINK failed on %r; native run is fine' % (doc[-60:],))
+                return verdict
+            D.EXTRA['validated'] += 1
+            return True if verdict is None else verdict
+    return prop, (lambda w: concrete_check(w['h1'], w['h2']) if ok_w(w) else None)
